@@ -18,7 +18,7 @@ theorem updateMode_frame (s : St) (m : Mode) (mask : Option Mask) (w : WOpts) :
   repeat' split
   all_goals simp [Res.isOk]
 
-theorem deleteMode_frame (s : St) (id : String) (am : Bool) (ex : Option Mode) :
+theorem deleteMode_frame (s : St) (id : String) (am : Bool) (ex : DOpts) :
     (deleteMode s id am ex).1 = s ∨ (deleteMode s id am ex).2.isOk = true := by
   unfold deleteMode
   repeat' split
@@ -70,16 +70,17 @@ theorem step_frame (s : St) (op : Op) : (step s op).1 = s ∨ (step s op).2.isOk
     simp only [step]
     split
     · simp
-    · rcases deleteMode_frame s id am none with h | h
+    · rcases deleteMode_frame s id am {} with h | h
       · left
         split
         · rename_i h2; rw [h2] at h; exact h
         · exact h
       · right
-        cases hr : deleteMode s id am none with
+        cases hr : deleteMode s id am {} with
         | mk s' r => rw [hr] at h; cases r <;> simp_all [Res.isOk]
   | sChangeActive id now => simp only [step]; split; simp; exact changeActive_frame s id now
   | sClear now => exact changeToNormal_frame s now
+  | sCreateNil => left; rfl
 
 theorem emitCreateOrAdd_frame (s : St) (m : Mode) (cands : List String)
     (h : (createOrAdd s m cands).2.isOk = false) : emitCreateOrAdd s m cands = [] := by
@@ -97,7 +98,7 @@ theorem emitUpdate_frame (s : St) (m : Mode) (mask : Option Mask) (w : WOpts)
   | err c => rfl
   | panic => rfl
 
-theorem emitDelete_frame (s : St) (id : String) (am : Bool) (ex : Option Mode)
+theorem emitDelete_frame (s : St) (id : String) (am : Bool) (ex : DOpts)
     (h : (deleteMode s id am ex).2.isOk = false) : emitDelete s id am ex = [] := by
   unfold emitDelete
   cases hr : (deleteMode s id am ex).2 with
@@ -145,7 +146,7 @@ theorem modeEvents_frame (s : St) (op : Op) (h : (step s op).2.isOk = false) : m
     · rename_i h2
       simp only [h2, if_false] at h
       apply emitDelete_frame
-      cases hr : deleteMode s id am none with
+      cases hr : deleteMode s id am {} with
       | mk s' r => rw [hr] at h; cases r <;> simp_all [Res.isOk]
   | setActive _ => rfl
   | changeActive _ _ => rfl
@@ -153,5 +154,6 @@ theorem modeEvents_frame (s : St) (op : Op) (h : (step s op).2.isOk = false) : m
   | findMode _ => rfl
   | sChangeActive _ _ => rfl
   | sClear _ => rfl
+  | sCreateNil => rfl
 
 end ScVerif.C19
